@@ -44,6 +44,30 @@ CLAIMED = {
         note="Domain: unicode lists without duplicates, renames onto absent names. ufoLib's getUnicodes scanner exercised, not modelled. Reload after external change is covered under C05's model, not here.",
         technique="Lean 4 proof (invariant induction over operation sequences) + model/implementation correspondence",
     ),
+    "C15": dict(
+        text=("Machine-checked Lean 4 theorems about the CLASS WIRING of defcon, a table regenerated from the source AST on "
+              "every run (every creation site in objects/, pens/ and tools/representations.py with the expression that supplies "
+              "its class - stored slot, class property, self.__class__ or hard-coded name - and the keyword arguments that carry "
+              "the registered classes Font -> LayerSet -> Layer -> Glyph -> Contour; every __init__'s default/store statements; "
+              "the extractor fails closed on unrecognised class-valued shapes). Proved for EVERY configuration (any subset of the "
+              "17 roles customised with any classes) and EVERY chain of creation sites of any length: each site catalogued as "
+              "creating (or isinstance-guarding) role r instantiates exactly the class registered for r, else defcon's own class "
+              "for r (slot_flow_identity), via a parametricity lemma (one symbolic run of the wiring simulates all concrete runs, "
+              "for every wiring) and a kernel-decided certificate over the regenerated table; no site on any of the 11 listed "
+              "creation paths is hard-coded, every site is catalogued, every role lies on a path (paths_use_slots, "
+              "catalogue_complete, every_path_step_registered). Tied to the code by differential runs: fonts built with marker "
+              "subclasses for random subsets of the roles, every creation path of the public API executed (load, create, "
+              "insertGlyph/copyData, dict/foreign/list appends, every instantiate*, both pens, reverse, split, removeSegment, "
+              "point insertion, decompose, reloadGlyphs/Layers/Info.., font/glyph/contour deserialisation), type() of every newly "
+              "reachable object compared with the model's prediction, plus a direct isinstance oracle over every reachable object."),
+        design="DESIGN.md section 5 (C15)",
+        note="Trusted beyond the kernel: that the AST extractor sees every creation site (it fails closed; the marker-subclass runs "
+             "cross-check it) and the catalogue's role per site (checked by the differential runs). Modelled assumption: registered "
+             "classes are subclasses of the role's default class that inherit __init__ and the instantiate* factories. Objects a user "
+             "constructs himself and hands in, and objects inside representations (flattened contour points), are not demanded.",
+        technique="Lean 4 proof (parametricity/simulation lemma for all wirings + kernel-decided certificate over a regenerated table, "
+                  "induction over creation chains) + model/implementation correspondence + direct oracle",
+    ),
 }
 
 NOT_YET = {}
